@@ -35,6 +35,7 @@ def parseLook : List String → Option Look
   | "SX" :: pkg :: ty :: p :: m :: eid :: rest =>
     if (p = "0" ∨ p = "1") ∧ eid.toNat?.isSome ∧ rest.length ≤ 1 then some (.structExport ⟨pkg.toList, ty.toList, p = "1"⟩ m.toList) else none
   | ["ES", pkg, raw, m, eid] => if eid.toNat?.isSome then some (.exportStruct pkg.toList raw.toList m.toList) else none
+  | ["EF", pkg, fn, eid] => if eid.toNat?.isSome then some (.exportFunc pkg.toList fn.toList) else none
   | ["EC", pkg, raw, m, eid] => if eid.toNat?.isSome then some (.exportStruct pkg.toList raw.toList m.toList) else none
   | _ => none
 
@@ -54,6 +55,7 @@ def parseStep (t : String) : Option MethodH.Step :=
   | "L" :: h :: rest => do let h ← h.toNat?; let l ← parseLook rest; pure (.look h l)
   | ["A", h] => do let h ← h.toNat?; pure (.apply h)
   | ["C", h] => do let h ← h.toNat?; pure (.cancel h)
+  | ["O", h] => do let h ← h.toNat?; pure (.origin h)
   | ["T", h, v] => do let h ← h.toNat?; let v ← v.toInt?; pure (.ret h v)
   | ["S", h, v1, v2] => do let h ← h.toNat?; let v1 ← v1.toInt?; let v2 ← v2.toInt?; pure (.rets h v1 v2)
   | ["W", h, f, v] => do let h ← h.toNat?; let f ← parseFlag f; let v ← v.toInt?; pure (.whenRet h f v)
